@@ -39,6 +39,7 @@ from ..schema import (
     SchemaVisitor,
     UnionType,
 )
+from ..schema.schema import _build_type_map
 from ..utilities import coerce_argument_values
 
 
@@ -186,8 +187,13 @@ class _SchemaDirectivesApplicationVisitor(SchemaVisitor):
             yield schema_directive_cls(args)
 
     def on_schema(self, schema: Schema) -> Schema:
-        # Make sure the schema has all the definitions.
+        # Make sure the schema has all the definitions, and the types of their
+        # arguments as it would had they been part of the document.
         schema.directives.update({n: d for n, (d, _) in self._defs.items()})
+        _build_type_map(
+            [], [d for d, _ in self._defs.values()], _type_map=schema.types
+        )
+        schema._invalidate_and_rebuild_caches()
 
         for sd in self._collect_schema_directives(schema, "SCHEMA"):
             schema = sd.on_schema(schema)
